@@ -331,6 +331,13 @@ impl<M: Manager, W: From<Object<M>>> Pool<M, W> {
         #[cfg(deadpool_verif)]
         crate::verif::point("get:users_inc", Arc::as_ptr(&self.inner) as usize);
 
+        // A recycle timeout cannot be applied without a runtime. This is
+        // reported up front: further down it would be indistinguishable from
+        // a failed recycle and healthy objects would be discarded silently.
+        if self.inner.runtime.is_none() && timeouts.recycle.is_some() {
+            return Err(PoolError::NoRuntimeSpecified);
+        }
+
         let non_blocking = match timeouts.wait {
             Some(t) => t.as_nanos() == 0,
             None => false,
